@@ -112,6 +112,18 @@ func ZvC18_Once_Expiring() {
 	t1 := vrt.NowNano()
 	// the entry was stored no earlier than t0, so it lives at least until t0+d
 	vrt.Assert(vrt.Implies(t1 < t0+d, vrt.And(calls == 1, r2 == first)), "C18/Once/expiring/no-second-run-while-entry-lives")
+	// ... and when a later call did run the callback again (the entry had expired), THAT run's
+	// result is the one that lives from then on: the next call inside its lifetime must not run
+	before := calls
+	t2 := vrt.NowNano()
+	r3 := Once[string, int, int](c, fn)
+	if calls == before+1 {
+		again := calls
+		r4 := Once[string, int, int](c, fn)
+		t3 := vrt.NowNano()
+		vrt.Assert(vrt.Implies(t3 < t2+d, vrt.And(calls == again, r4 == r3)), "C18/Once/expiring/re-run-after-expiry-is-cached-again")
+		vrt.Cover("C18/Once/expiring/re-run")
+	}
 }
 
 // Retry: n over the whole int range below the bound, a fresh nondeterministic outcome per attempt.
